@@ -19,11 +19,11 @@ RULE = ("2-4 (thorough: up to 16) caller threads - real pthreads of which the si
         "('io'), or 1-30 forced pre-emptions at instrumented basic-block edges of the repository code placed after a counting pass ('edge'). Oracle: no crash/sanitizer report/exit/deadlock/step-budget overrun; "
         "handles issued as new pairwise distinct; interval semantics for searches and reads during the run; at quiescence objects = created - destroyed with every acknowledged change present, also after a restart; "
         "mutex discipline of the library as seen by the callbacks. Distinct+non-trivial: (locking mode, policy, stratum, distinct context-switch sequence).")
-PROBES = ["runs_with_switches", "edge_preemptions", "mutex_blocked", "mutex_locks", "handles_checked", "quiescence_checked", "restart_checked", "overlapping_calls", "stratum_close_open", "stratum_logout_private", "stratum_create_search", "stratum_destroy_read", "stratum_same_object", "stratum_slots", "stratum_crypto"]
+PROBES = ["runs_with_switches", "edge_preemptions", "mutex_blocked", "mutex_locks", "handles_checked", "quiescence_checked", "restart_checked", "overlapping_calls", "stratum_close_open", "stratum_logout_private", "stratum_create_search", "stratum_destroy_read", "stratum_same_object", "stratum_slots", "stratum_crypto", "stratum_session_objects"]
 DEATH_IS_VIOLATION = ("died.exit", "died.sanitizer", "died.signal", "died.hang", "died.deadlock")
 READ_T = c15.READ_T
 
-STRATA = ["mixed", "close_open", "logout_private", "create_search", "destroy_read", "same_object", "slots", "crypto"]
+STRATA = ["mixed", "close_open", "logout_private", "create_search", "destroy_read", "same_object", "slots", "crypto", "session_objects"]
 
 def gen(seed, tier, index):
     g = G(seed, "C18", profile="mthread"); r = g.r
@@ -119,6 +119,18 @@ def gen(seed, tier, index):
                     s2 = g.new_sess(); g.emit({"f": "C_OpenSession", "slot": on_tok(t), "flags": RW, "out": s2}, t); g.emit({"f": "C_CloseSession", "s": s2}, t)
             elif stratum == "crypto" and x < 0.8:
                 crypto(t)
+            elif stratum == "session_objects" and x < 0.85:
+                # session objects of a short-lived session die with it while other threads create and look up session objects of their own, long-lived sessions
+                y = r.random()
+                if y < 0.4:
+                    s2 = g.new_sess()
+                    g.emit({"f": "C_OpenSession", "slot": on_tok(t), "flags": RW, "out": s2}, t)
+                    for _ in range(r.randint(1, 3)):
+                        ref = g.new_obj(); tm, _ = objs.make(r.choice(["aes", "generic", "data"]), ref, r, token=False, private=False, flags={"sensitive": False, "extractable": True})
+                        g.emit({"f": "C_CreateObject", "s": s2, "tmpl": tm, "out": ref}, t)
+                    g.emit({"f": "C_CloseSession", "s": s2}, t)
+                elif y < 0.75: create_own(t, token=False)
+                else: g.emit({"act": "find", "s": s, "tmpl": [], "batches": []}, t)
             else:
                 y = r.random()
                 if y < 0.3: create_own(t)
@@ -183,7 +195,7 @@ def check(plan, r):
     nsw = sum(sw.get(k, 0) for k in ("Y1", "Y2", "Y3", "Y4"))
     if nsw: st("runs_with_switches")
     st("edge_preemptions", sw.get("Y4", 0))
-    st("stratum_" + {"close_open": "close_open", "logout_private": "logout_private", "create_search": "create_search", "destroy_read": "destroy_read", "same_object": "same_object", "slots": "slots", "crypto": "crypto"}.get(stratum, "mixed"))
+    st("stratum_" + {"close_open": "close_open", "logout_private": "logout_private", "create_search": "create_search", "destroy_read": "destroy_read", "same_object": "same_object", "slots": "slots", "crypto": "crypto", "session_objects": "session_objects"}.get(stratum, "mixed"))
     # (v) mutex discipline
     for m in hist.mons(r, "mutex_discipline"):
         viols.append(_v("C18.mutex_discipline", "the library misused a mutex it got from the application: %s (mutex #%s)" % (m["d"].get("what"), m["d"].get("id")), call="mutex", manifestation=m["d"].get("what"))); break
@@ -232,6 +244,7 @@ def check(plan, r):
             if e2.tid != e.tid and e2.inv < e.retn and e.inv < e2.retn and e.f.startswith("C_") and e2.f.startswith("C_"): overlapping += 1
     st("overlapping_calls", overlapping)
     st("mutex_blocked", res.get("mutex_blocked", 0) if "mutex_blocked" in res else 0)
+    st("mutex_locks", res.get("mutex_locks", 0))
     racy_run = (stratum == "logout_private")
     w = World()
     restarted = False
